@@ -49,6 +49,9 @@ var sysNames = map[uint64]string{
 	74: "fsync", 75: "fdatasync", 76: "truncate", 77: "ftruncate", 82: "rename", 85: "creat", 86: "link", 87: "unlink",
 	88: "symlink", 90: "chmod", 91: "fchmod", 93: "fchown", 231: "exit_group", 257: "openat", 263: "unlinkat", 264: "renameat",
 	265: "linkat", 266: "symlinkat", 268: "fchmodat", 316: "renameat2", 326: "copy_file_range", 437: "openat2",
+	// every other call that can fail on the file, its temporary files or its directory
+	92: "chown", 94: "lchown", 260: "fchownat", 280: "utimensat", 261: "futimesat", 132: "utime", 235: "utimes", 285: "fallocate",
+	277: "sync_file_range", 306: "syncfs", 84: "rmdir", 83: "mkdir", 258: "mkdirat", 188: "setxattr", 190: "fsetxattr",
 }
 
 var errnos = map[string]syscall.Errno{
@@ -58,6 +61,7 @@ var errnos = map[string]syscall.Errno{
 }
 
 type tamper struct {
+	left map[string]bool // files that were in the directory before the run (left behind by an earlier run): object "left"
 	delayOpen time.Duration // hold every thread this long when it returns from openat (widens races between threads)
 	at        int           // index (1-based) of the call on target/tmp to disturb; 0 = none
 	kind      string        // "err", "kill", "short"
@@ -174,6 +178,10 @@ func trace(argv []string, dir string, env []string, target string, tp tamper) tr
 			return "-"
 		case p == target:
 			return "target"
+		case p == tdir:
+			return "dir"
+		case tp.left[p]:
+			return "left"
 		case filepath.Dir(p) == tdir || created[p]:
 			return "tmp"
 		}
@@ -289,13 +297,20 @@ func trace(argv []string, dir string, env []string, target string, tp tamper) tr
 					p, ev.Op, ev.Req = fdPathOf(tid, a[0]), "write", int(a[3])
 				case "close":
 					p, ev.Op = fdPathOf(tid, a[0]), "close"
-				case "fchmod", "fchown":
+				case "fchmod", "fchown", "fallocate", "fsetxattr":
 					p, ev.Op = fdPathOf(tid, a[0]), "chmod"
-				case "chmod":
+				case "chmod", "chown", "lchown", "utime", "utimes", "setxattr", "rmdir", "mkdir":
 					p, ev.Op = atPath(tid, ^uint64(99), a[0]), "chmod"
-				case "fchmodat":
+				case "fchmodat", "fchownat", "futimesat", "mkdirat":
 					p, ev.Op = atPath(tid, a[0], a[1]), "chmod"
-				case "fsync", "fdatasync":
+				case "utimensat":
+					if a[1] == 0 {
+						p = fdPathOf(tid, a[0])
+					} else {
+						p = atPath(tid, a[0], a[1])
+					}
+					ev.Op = "chmod"
+				case "fsync", "fdatasync", "sync_file_range", "syncfs":
 					p, ev.Op = fdPathOf(tid, a[0]), "fsync"
 				case "ftruncate":
 					p, ev.Op = fdPathOf(tid, a[0]), "truncate"
